@@ -101,20 +101,25 @@ def main(tier, replay=None):
     per_slice, edge_files = {}, []
     res = vlib.tlc_many("MC_Pair", ["MC_%s.cfg" % n for n in names], wd, parallel=2 if thorough else 4,
                         workers=8 if thorough else 4, xmx="24g" if thorough else "8g", timeout=3000 if thorough else 600)
+    extracted = {}
     for name in names:
         mc = res["MC_%s.cfg" % name]
         if not mc["completed"] or mc["errors"]:
             txt = open(mc["out"], errors="replace").read()
             sv = [l[:600] for l in txt.splitlines() if l.startswith('<<"SPECVIOL"')][:2]
             raise vlib.ToolError("pair slice %s: the specification violates its own properties: %s %s" % (name, mc["errors"][:2], sv))
-        ef = os.path.join(wd, "edges_%s.ndjson" % name)
-        total, kept = vlib.edges_to_file(mc["out"], ef, limit=max(400, limit // len(names)), rng_seed=rng.randrange(1 << 30), maximal=True)
-        covered = vlib.edges_to_file.covered
+        extracted[name] = vlib.maximal_schedules(mc["out"])
         os.remove(mc["out"])
-        states += mc["distinct"]
+    shares = vlib.water_fill({n: len(extracted[n][1]) for n in names}, limit)
+    for name in names:
+        total, lines, parent = extracted[name]
+        ef = os.path.join(wd, "edges_%s.ndjson" % name)
+        kept, covered = vlib.write_schedules(lines, parent, ef, limit=shares[name], rng_seed=rng.randrange(1 << 30))
+        states += res["MC_%s.cfg" % name]["distinct"]
         transitions += total
-        per_slice[name] = {"states": mc["distinct"], "transitions": total, "replayed": covered, "schedules": kept}
+        per_slice[name] = {"states": res["MC_%s.cfg" % name]["distinct"], "transitions": total, "replayed": covered, "schedules": kept, "maximal_schedules": len(lines)}
         edge_files.append(ef)
+    del extracted
     # one harness process + one Trace_Pair run per slice (and one for the random workloads), side by side: every TLC
     # worker deserialises the whole trie it walks, so several small tries are much cheaper than one big one
     drive_n = "600" if thorough else "60"
@@ -129,7 +134,8 @@ def main(tier, replay=None):
         phs = vlib.harness(binary, ["run"] + pargs + ["--out", ptrie], timeout=3000)
         pviols, _ = judge(ptrie, pwd, 4 if thorough else 2)
         pnodes = vlib.load_trie(ptrie)
-        os.remove(ptrie)
+        if not os.environ.get("VERIF_KEEP"):
+            os.remove(ptrie)
         return pname, phs, pviols, pnodes
 
     from concurrent.futures import ThreadPoolExecutor
